@@ -7,7 +7,7 @@ cd "$(dirname "$0")"
 mkdir -p coq/gen evidence .work
 /venv/bin/python - <<'PY'
 import sys, importlib, pkgutil, traceback
-sys.path.insert(0, "/verif")
+sys.path.insert(0, __import__("os").path.dirname(__import__("os").path.abspath("setup.sh")))
 from vf import core
 import translator
 for m in pkgutil.iter_modules(translator.__path__):
